@@ -416,6 +416,8 @@ func runReader(cs *codecs, u *Use, ids map[uintptr]int, outs []*useOut) trace.Ev
 					cut++
 				}
 			}
+		} else if u.Codec == "snappy" && t.Item == len(items)+1 {
+			cut = len(stream) // complete stream, but the source ends with the injected error
 		} else {
 			cut = len(stream) * t.Frac / 1000
 		}
